@@ -194,6 +194,10 @@ def judge_clock(sc, res):
         else:
             clause = 'at-most-once' if len(log) > len(exp['log']) else 're-add'
         return (clause, 'wake-ups depart from the reference at position %d: woke %s, expected %s' % (i, log, exp['log']))
+    if res.get('stale'):
+        w = res['stale'][0]
+        return ('iter', 'a pending wake-up sits in the queue at a time that is not the time of the beat its entry carries: task %s '
+                'queued at %s s but its beat is at %s s (seen at wake-up %s); log %s' % (w[0], w[1], w[2], w[3], log))
     if res.get('left', 0) != 0:
         return ('empty', 'scheduler loop ended with %s live entries left' % res.get('left'))
     return None
